@@ -7,6 +7,21 @@ PY = "/venv/bin/python"
 
 # property id -> (design section, technique, level text, level note)
 BUILT = {
+    "C08": ("§4.8", "exhaustive check of every diagnostic of every carrier / diagnostic-dense file, and exhaustive "
+            "enumeration of all pairs and triples of a small Error domain for the comparator laws",
+            "Every file of the carrier sets: each diagnostic well-formed (catalogue code and text, level, position inside "
+            "the file), ascending order, JSON output equal to the humanized output at formatter level and through "
+            "main(); comparator irreflexive/asymmetric/transitive and consistent with printed positions on all pairs and "
+            "triples of the domain.",
+            "Pairs whose printed position lies inside another diagnostic's multi-highlight span cannot come from a file "
+            "and are only counted."),
+    "C12": ("§4.12", "deviation-bounded exhaustive enumeration: every respelling subset (k = 0,1,2,all) and every "
+            "token-boundary splice of carrier files, every respelling subset and splice of all punctuator sequences "
+            "up to length 3/4",
+            "Token (type, value) sequences must be identical under every explored respelling/splice; for brace and bracket "
+            "respellings the (level, code, line) diagnostics must be identical too.",
+            "A respelled punctuator is separated from its neighbours by a blank (maximal munch across the boundary is C's "
+            "behaviour); a splice after a // comment is excluded."),
     "C13": ("§4.13", "exhaustive enumeration of stdheader template instances x leading contexts, of every structural "
             "mutation H1-H11, and of all leading-line sequences with <= 2 deviating line kinds (header state machine)",
             "Every template instance in every leading context must yield zero INVALID_HEADER, every single structural "
